@@ -259,6 +259,8 @@ def compare(model, got, fd, n):
             info['sig'] = 'tm-all-fill'
         return [('unset-not-none', f'unset optional {kind}/{dt} field read back as {got!r}'[:300], info)]
     if got is None:
+        if kind == 'T' and dt == 'str' and fd[2] == 'o' and model == ('sc', ''):
+            return []  # '' is what an unwritten string holds in a file: same exclusion as the numeric fill values
         return [('value-lost', f'{kind}/{dt} field with a value read back as None', {})]
     tag, v = model
     if tag == 'sc':
